@@ -330,7 +330,7 @@ class KeyEval:
             if cf.module is not func.module:
                 continue
             for c in own_calls(cf.node):
-                if (dotted(c.func) or '').endswith('partial') and c.args and isinstance(c.args[0], ast.Attribute) and c.args[0].attr == func.name:
+                if ((dotted(c.func) or '').endswith('partial') or (dotted(c.func) or '') == 'FunctionContainer') and c.args and isinstance(c.args[0], ast.Attribute) and c.args[0].attr == func.name:
                     bp = func.bound_params()
                     if name in bp and bp.index(name) + 1 < len(c.args):
                         alts.append(self.keys(c.args[bp.index(name) + 1], cf, None, depth + 1))
@@ -410,6 +410,12 @@ class KeyEval:
                 Lk = set(L.keys()) if isinstance(L, dict) else set(L)
                 inside = isinstance(t.ops[0], ast.In) == pol
                 preds.append((Lk, inside))
+            elif isinstance(t, ast.Compare) and len(t.ops) == 1 and isinstance(t.ops[0], (ast.Is, ast.IsNot)) and isinstance(t.comparators[0], ast.Constant) \
+                    and t.comparators[0].value is None and self._map_get(func, t.left, kvar) is not None:
+                # `m = M.get(k)` ... `if m is [not] None`: membership of k in M (M is a constant dict without None values)
+                M = self._map_get(func, t.left, kvar)
+                inside = isinstance(t.ops[0], ast.IsNot) == pol
+                preds.append((set(M.keys()), inside))
             else:
                 raise Unknown(f'guard {norm(t)} of {norm(store)} not modelled')
         ok = lambda k: all((k in Lk) == inside for Lk, inside in preds)
@@ -422,7 +428,24 @@ class KeyEval:
             if not isinstance(M, dict):
                 raise Unknown(f'{norm(sl.value)} is not a dict')
             return {M[k] for k in may if k in M}, {M[k] for k in must if k in M}, ent
+        M = self._map_get(func, sl, kvar)
+        if M is not None:
+            return {M[k] for k in may if k in M}, {M[k] for k in must if k in M}, ent
         raise Unknown(f'store key {norm(sl)} not modelled')
+
+    def _map_get(self, func, e, kvar):
+        """e (or the local it names) is M.get(<loop key>) for a constant dict M without None values -> M, else None"""
+        if isinstance(e, ast.Name):
+            e = q.resolve_local(func, e)
+        if isinstance(e, ast.Call) and isinstance(e.func, ast.Attribute) and e.func.attr == 'get' and len(e.args) == 1 and not e.keywords \
+                and isinstance(e.args[0], ast.Name) and e.args[0].id == kvar:
+            try:
+                M = self.const(e.func.value, func)
+            except Unknown:
+                return None
+            if isinstance(M, dict) and all(v is not None for v in M.values()):
+                return M
+        return None
 
 
 def star_kwargs(call):
